@@ -63,5 +63,76 @@ theorem rs_skip_byte_eq (s : Buffered) (hg : Good s) :
     rw [bind_some h2, if_neg (by decide), run_pure]
     exact ⟨_, rfl, rfl⟩
 
+/-! ### the same as simulations, and `consume` -/
+omit hrd in
+theorem sim_of_exists {α β : Type} {m : Rs.RsM (Rs.PgnRawParser Reader) α} {p : Prog β} {rel : α → β → Prop}
+    (h : ∀ s, Good s → ∃ a, m (toRs s) = some (a, toRs (run p s).2) ∧ rel a (run p s).1) : Sim m p rel ∧ Total m := by
+  refine ⟨?_, ?_⟩
+  · intro s a t hg hm
+    obtain ⟨a', h1, h2⟩ := h s hg
+    rw [h1] at hm; cases hm; exact ⟨rfl, h2⟩
+  · intro s hg hn
+    obtain ⟨a', h1, _⟩ := h s hg
+    rw [h1] at hn; cases hn
+
+omit hrd in
+theorem pure_bind_run {σ α β : Type} (a : α) (f : α → Rs.RsM σ β) : (pure a >>= f) = f a := by
+  funext s; rw [run_bind, run_pure]
+
+omit hrd in
+theorem sim_pure_bind {α β γ : Type} {a : α} {f : α → Rs.RsM (Rs.PgnRawParser Reader) γ} {p : Prog β} {rel : γ → β → Prop}
+    (h : Sim (f a) p rel) : Sim (pure a >>= f) p rel := by
+  rw [pure_bind_run]; exact h
+
+omit hrd in
+theorem sim_get_bind {β γ : Type} {f : Rs.PgnRawParser Reader → Rs.RsM (Rs.PgnRawParser Reader) γ} {p : Prog β} {rel : γ → β → Prop}
+    (h : ∀ g, Sim (f g) p rel) : Sim (Rs.RsM.get >>= f) p rel := by
+  intro s a t hg hm
+  rw [bind_some (run_get _)] at hm
+  exact h _ s a t hg hm
+
+omit hrd in
+theorem sim_panic {α β : Type} {p : Prog β} {rel : α → β → Prop} : Sim (Rs.RsM.panic : Rs.RsM (Rs.PgnRawParser Reader) α) p rel := by
+  intro s a t _ hm
+  rw [run_panic] at hm; cases hm
+
+theorem rs_peek_byte_sim : Sim (Rs.PgnRawParser.peek_byte rd) peekByte (relRes relByte) := (sim_of_exists (rs_peek_byte_eq rd hrd)).1
+theorem rs_pop_byte_sim : Sim (Rs.PgnRawParser.pop_byte rd) popByte (relRes relByte) := (sim_of_exists (rs_pop_byte_eq rd hrd)).1
+theorem rs_skip_byte_sim : Sim (Rs.PgnRawParser.skip_byte rd) skipByte (relRes (fun _ _ => True)) := (sim_of_exists (rs_skip_byte_eq rd hrd)).1
+theorem rs_peek_byte_total : Total (Rs.PgnRawParser.peek_byte rd) := (sim_of_exists (rs_peek_byte_eq rd hrd)).2
+theorem rs_pop_byte_total : Total (Rs.PgnRawParser.pop_byte rd) := (sim_of_exists (rs_pop_byte_eq rd hrd)).2
+theorem rs_skip_byte_total : Total (Rs.PgnRawParser.skip_byte rd) := (sim_of_exists (rs_skip_byte_eq rd hrd)).2
+
+omit hrd in
+theorem byteI_inj {a b : UInt8} (h : byteI a = byteI b) : a = b := by
+  unfold byteI at h
+  exact UInt8.toNat_inj.mp (by omega)
+
+/-- **`consume` = `consume`** (the payload of `IllegalConsume` is dropped by the model) -/
+theorem rs_consume_sim (c : UInt8) : Sim (Rs.PgnRawParser.consume rd (byteI c)) (Pgn.consume c) (relRes (fun _ _ => True)) := by
+  unfold Rs.PgnRawParser.consume Pgn.consume M.bind
+  refine sim_bind (rs_pop_byte_sim rd hrd) (fun a b hab => ?_)
+  cases a with
+  | error e =>
+    cases b with
+    | error e' => exact sim_pure hab
+    | ok b => exact absurd hab id
+  | ok v =>
+    cases b with
+    | error e' => exact absurd hab id
+    | ok b =>
+      have hv : v = byteI b := hab
+      subst hv
+      dsimp only []
+      refine sim_pure_bind ?_
+      by_cases hbc : b = c
+      · subst hbc
+        rw [if_pos (by simp), if_pos rfl]
+        exact sim_pure trivial
+      · have : ¬ (byteI b == byteI c) = true := by
+          intro h; exact hbc (byteI_inj (by simpa using h))
+        rw [if_neg this, if_neg hbc]
+        exact sim_get_bind (fun g => sim_pure rfl)
+
 end
 end Inkayaku.Translated
